@@ -101,6 +101,11 @@ CHECKS = {
         text="Configuration-space exploration: every configuration in the stated part of the lattice is built with the real toolchain; exposure is decided per item by rustc's name resolution.",
         note="Trusted: cargo/rustc; the helper-type -> feature table transcribed from the docs. Triples and larger proper subsets are not explored (pairs exercise every pairwise combination of the cfg(any(feature..)) guards).",
         design_ref="DESIGN.md §3 C20", engine="cargo"),
+    "C17": dict(
+        technique="enumeration of the documented attribute grammar per derive (tables transcribed from impl/doc and the CHANGELOG): 50 groups of synonymous spellings (skip/ignore, bound/bounds, one list vs several attributes, trailing commas, argument/attribute order, mark-one vs ignore-others; 170 spellings) expanded by the real code in-process and compared as canonical multisets of items; 337 single-step corruptions (unknown argument in each slot, duplicates, conflicting pairs, wrong item kind, legacy forms) each of which must be rejected by the derive (or, for arguments that are syntactically types, by rustc on the real proc-macro)",
+        text="Exhaustive over the hand-transcribed grammar tables (not over all token sequences - those are C18's space): each rewrite pair must expand identically, each corruption must fail.",
+        note="Trusted: the grammar tables in props/c17.py and the canonicalisation (impl order, where-predicate order). Positions the docs do not name (e.g. #[display] on a field, #[index] on the struct) are out of scope.",
+        design_ref="DESIGN.md §3 C17", engine="inproc+compile"),
 }
 
 PENDING = ["C01", "C02", "C03", "C04", "C05", "C06", "C07", "C08", "C09", "C10", "C11", "C13", "C14", "C15", "C16",
